@@ -346,6 +346,10 @@ def run(ctx):
     c14_5_trust(ctx, seen)
     from . import pycodec
     pycodec.run(ctx, "C14.W", parts=("bytes",))
+    # truncated input stays an error (shared C13.3); the places where decoding depends on TRUSTED are the enumerated ones (shared C13.4)
+    from . import c13 as _c13
+    _c13.c13_errors_propagate(ctx, impls, R="C14.4")
+    _c13.c13_4(ctx, impls, R="C14.5")
 
 
 def c14_1(ctx, seen):
